@@ -15,6 +15,7 @@ import (
 	ipldjson "github.com/ipld/go-ipld-prime/codec/json"
 	"github.com/ipld/go-ipld-prime/codec/raw"
 	"github.com/ipld/go-ipld-prime/datamodel"
+	"github.com/ipld/go-ipld-prime/linking"
 	"github.com/ipld/go-ipld-prime/node/basicnode"
 	"github.com/ipld/go-ipld-prime/node/bindnode"
 	"github.com/ipld/go-ipld-prime/node/gendemo"
@@ -491,6 +492,9 @@ func TestC10_SelectorBoundaryTable(t *testing.T) {
 type C10SelCase struct {
 	Spec val.V       `json:"spec"`
 	G    graph.Graph `json:"graph"`
+	// Reifiers: the link system of the walk knows one ADL ("known", the identity); specs may name it, another
+	// name or the empty name in interpret-as clauses
+	Reifiers bool `json:"reifiers,omitempty"`
 }
 
 func c10SelCheck(c C10SelCase, rec *evid.Rec) error {
@@ -523,7 +527,15 @@ func c10SelCheck(c C10SelCase, rec *evid.Rec) error {
 		}
 		for _, mode := range []string{"WalkAdv", "WalkMatching", "WalkTransforming"} {
 			werr, timedOut := withWatchdog(mode, 10*time.Second, func() error {
-				prog := traversal.Progress{Cfg: selx.Config(real), Budget: &traversal.Budget{NodeBudget: 3000, LinkBudget: 200}}
+				cfg := selx.Config(real)
+				if c.Reifiers {
+					cfg.LinkSystem.KnownReifiers = map[string]linking.NodeReifier{
+						"known": func(_ linking.LinkContext, n datamodel.Node, _ *linking.LinkSystem) (datamodel.Node, error) {
+							return n, nil
+						},
+					}
+				}
+				prog := traversal.Progress{Cfg: cfg, Budget: &traversal.Budget{NodeBudget: 3000, LinkBudget: 200}}
 				switch mode {
 				case "WalkAdv":
 					return prog.WalkAdv(real.Root, sel, func(traversal.Progress, datamodel.Node, traversal.VisitReason) error { return nil })
@@ -549,7 +561,7 @@ func c10SelCheck(c C10SelCase, rec *evid.Rec) error {
 
 var c10Selectors = evid.Part[C10SelCase]{
 	Prop: "C10", Name: "selectors", Quick: 4000, Thorough: 400000,
-	Rule: "selector specs from an UNCONSTRAINED generator (any integers incl. ±2^63 and huge ranges, negative depths/indices, inverted subsets, edges anywhere incl. outside recursions / as the whole sequence / directly under a union of the sequence, nested recursions) with 0-3 structural mutations (wrong kinds, dropped / renamed / extra keys); CompileSelector must return or error without panic within an allocation bound; whatever compiles is walked (WalkAdv, WalkMatching, WalkTransforming, node budget 3000) over a drawn graph without panic or hang; all cases non-trivial; distinct by (spec, graph)",
+	Rule: "selector specs from an UNCONSTRAINED generator (any integers incl. ±2^63 and huge ranges, negative depths/indices, inverted subsets, edges anywhere incl. outside recursions / as the whole sequence / directly under a union of the sequence, nested recursions; a third wrapped in an interpret-as clause, at the root or for every child, naming a registered ADL, an unregistered one or none, walked with and without a reifier registered in the link system) with 0-3 structural mutations (wrong kinds, dropped / renamed / extra keys); CompileSelector must return or error without panic within an allocation bound; whatever compiles is walked (WalkAdv, WalkMatching, WalkTransforming, node budget 3000) over a drawn graph without panic or hang; all cases non-trivial; distinct by (spec, graph)",
 	Gen: func(t *rapid.T) C10SelCase {
 		o := graph.DefaultOpts()
 		o.MaxBlocks = 2
@@ -565,7 +577,20 @@ var c10Selectors = evid.Part[C10SelCase]{
 				spec = m
 			}
 		}
-		return C10SelCase{Spec: spec, G: g}
+		c := C10SelCase{Spec: spec, G: g, Reifiers: rapid.Bool().Draw(t, "reifiers")}
+		// interpret-as clauses (naming a registered ADL, an unregistered one, or nothing) around the whole spec or
+		// around what is applied to every child
+		interpretAs := func(next val.V) val.V {
+			name := rapid.SampledFrom([]string{"known", "unknown", "", "known"}).Draw(t, "adl")
+			return val.MkMap(val.Ent{K: "~", V: val.MkMap(val.Ent{K: "as", V: val.MkString(name)}, val.Ent{K: ">", V: next})})
+		}
+		switch rapid.IntRange(0, 5).Draw(t, "interpret") {
+		case 0:
+			c.Spec = interpretAs(c.Spec)
+		case 1:
+			c.Spec = val.MkMap(val.Ent{K: "a", V: val.MkMap(val.Ent{K: ">", V: interpretAs(c.Spec)})})
+		}
+		return c
 	},
 	Check: c10SelCheck,
 }.Reg()
